@@ -13,7 +13,7 @@ RULE = ('C01 workloads plus 1-3 termination requests (terminate(reason) / Agent.
         'A fifth of the runs open two contacts between the same two agents and call Agent.shutdown() (or terminate() on one contact) while transfers run on the other; no faults there, so every started transfer must complete, every terminated contact must exchange SESS_TERM and close, and a contact that was not terminated must stay open. Non-trivial: a SESS_TERM, close or fault actually occurred; distinct = distinct event-history digests.')
 COMPONENTS = tc.COMPONENTS
 PROBES = ('wire.SESS_TERM', 'probe.term_mid_transfer', 'probe.simultaneous_term', 'probe.term_before_established',
-          'probe.unstarted_at_term', 'fault.reset', 'fault.kill', 'fault.blackhole', 'fault.stall', 'tcp.short_write', 'engine.multi_contact')
+          'probe.unstarted_at_term', 'fault.reset', 'fault.kill', 'fault.blackhole', 'fault.stall', 'tcp.short_write', 'engine.multi_contact', 'fault.spurious_readable')
 ASSUMPTIONS = ['as C01', 'bounded liveness: both contacts closed within the 60 s horizon (which exceeds every stall and idle time drawn)']
 CHUNK = 10
 
@@ -47,6 +47,7 @@ def gen(ch, tier):
     mode = ch.weighted('mode', (6, 3, 2))
     if mode == 1:
         prof['faults'] = True
+        prof['fault_kinds'] = ('stall', 'stall', 'slow', 'reset', 'kill', 'blackhole', 'spurious', 'spurious')
     elif mode == 2:
         prof['timers'] = True
     return tcpcl_pair.gen_plan(ch, prof)
